@@ -86,6 +86,16 @@ Proof.
   rewrite mread_rdcopy_prefix by lia. apply truncate_min. lia.
 Qed.
 
+Lemma response_read_u : forall m p M rd, 0 <= M < WW ->
+  mread (mstore (rdcopy m (p + 32) 0 (Z.min M (blen rd)) rd) p (Z.min M (blen rd))) (p + 32)
+        (mload (mstore (rdcopy m (p + 32) 0 (Z.min M (blen rd)) rd) p (Z.min M (blen rd))) p) = truncate M rd.
+Proof.
+  intros m p M rd HM.
+  assert (Hb : 0 <= blen rd) by (unfold blen; lia).
+  rewrite mload_mstore by lia. rewrite mread_mstore_after.
+  rewrite mread_rdcopy_prefix by lia. apply truncate_min. lia.
+Qed.
+
 (* ---------------- the use-sites compute the documented behaviour ---------------- *)
 Definition ptr_ok (p : Z) := 0 <= p /\ p + 32 < WW.
 
@@ -121,34 +131,11 @@ Ltac fin y buf :=
   rewrite ?lt_self_plus, ?sel_min; ev_cbn;
   rewrite ?mread_rdcopy.
 
-Lemma rawcall_legacy_pos : forall k M R hg (hv : bool) c cr y s buf,
-  0 < M < WW -> ptr_ok (y_data y) -> ptr_ok buf ->
-  observe M R (ev_top (mkG c cr (symtab y)) (gen_rawcall_legacy k M R hg (if hv then sym "value_sym" else SL 0) buf) s)
-  = raw_call_w k M R c (y_to y) (match k with KCall => if hv then y_value y else 0 | _ => 0 end) (bytes_at (s_mem s) (y_data y)) (s_world s).
-Proof.
-  intros k M R hg hv c cr y s buf HM [Hd1 Hd2] [Hb1 Hb2].
-  unfold gen_rawcall_legacy. destruct (Z.eqb_spec M 0) as [E|_]; [lia|].
-  assert (HM' : (0 <? M) = true) by (apply Z.ltb_lt; lia).
-  destruct k, R, hg, hv; unfold ev_top, ev1, sym, propagate, call_node, raw_call_w; ev_cbn; fin y buf.
-  all: unfold observe; rewrite ?HM'; f_equal; try (apply response_read; lia).
-Qed.
-
-Lemma rawcall_legacy_zero : forall k R hg (hv : bool) c cr y s buf,
-  ptr_ok (y_data y) ->
-  observe 0 R (ev_top (mkG c cr (symtab y)) (gen_rawcall_legacy k 0 R hg (if hv then sym "value_sym" else SL 0) buf) s)
-  = raw_call_w k 0 R c (y_to y) (match k with KCall => if hv then y_value y else 0 | _ => 0 end) (bytes_at (s_mem s) (y_data y)) (s_world s).
-Proof.
-  intros k R hg hv c cr y s buf [Hd1 Hd2].
-  unfold gen_rawcall_legacy. rewrite ?eqb00.
-  destruct k, R, hg, hv; unfold ev_top, ev1, sym, propagate, call_node, raw_call_w; ev_cbn; fin y buf.
-  all: unfold observe; cbn [Z.ltb Z.compare]; f_equal.
-Qed.
-
 Ltac site_step :=
   match goal with |- context [run_site (gen_site ?k ?op) ?E ?m] =>
     let HS := fresh "HS" in
     pose proof (gen_site_spec k op E m) as HS; unfold site_spec in HS; cbn [e_res e_rd] in HS;
-    rewrite ?eqb10, ?eqb00 in HS; rewrite HS; clear HS end.
+    rewrite ?eqb10, ?eqb00 in HS; try match goal with Ea : (_ =? 0) = false |- _ => rewrite Ea in HS end; rewrite HS; clear HS end.
 Ltac ev_cbn2 := cbn -[Z.eqb Z.ltb Z.leb rdcopy mread blen mload mstore exec_call Z.min WW Z.modulo Z.add truncate bytes_at Z.lxor Z.mul run_site gen_site].
 Ltac finv y :=
   rewrite ?(Z.mod_small (y_data y + 32) WW), ?(Z.mod_small (y_out y + 32) WW) by lia;
@@ -156,25 +143,1184 @@ Ltac finv y :=
   match goal with |- context [exec_call ?w ?c ?k ?t ?v ?d] => let o := fresh "o" in set (o := exec_call w c k t v d); destruct (o_ok o) end;
   cbn [b2z]; try site_step; ev_cbn2; rewrite ?cap_xor by (unfold blen; lia); ev_cbn2.
 
-Lemma rawcall_venom_pos : forall k M R (hg : bool) glit vlit c cr y s fp tg,
-  0 < M < WW -> ptr_ok (y_data y) -> ptr_ok (y_out y) ->
-  observe M R (run_vsite (mkG c cr (symtab y)) (gen_rawcall_venom k M R (if hg then SL glit else sym "gas") (SL vlit)) fp tg s)
-  = raw_call_w k M R c (y_to y) (match k with KCall => vlit | _ => 0 end) (bytes_at (s_mem s) (y_data y)) (s_world s).
+
+Lemma rcl_pos_KCall_111 : forall M c cr y s buf, 0 < M < WW -> ptr_ok (y_data y) -> ptr_ok buf ->
+  observe M true (ev_top (mkG c cr (symtab y)) (gen_rawcall_legacy KCall M true true (sym "value_sym") buf) s)
+  = raw_call_w KCall M true c (y_to y) (y_value y) (bytes_at (s_mem s) (y_data y)) (s_world s).
 Proof.
-  intros k M R hg glit vlit c cr y s fp tg HM [Hd1 Hd2] [Hb1 Hb2].
-  unfold gen_rawcall_venom. destruct (Z.eqb_spec M 0) as [E|_]; [lia|].
+  intros M c cr y s buf HM [Hd1 Hd2] [Hb1 Hb2].
+  unfold gen_rawcall_legacy. destruct (Z.eqb_spec M 0) as [E|_]; [lia|].
   assert (HM' : (0 <? M) = true) by (apply Z.ltb_lt; lia).
-  destruct k, R, hg; unfold run_vsite, cap_tree, sym, raw_call_w, kind_op; ev_cbn2; finv y.
-  all: unfold observe; rewrite ?HM'; f_equal; try (apply response_read; lia).
+  unfold ev_top, ev1, sym, propagate, call_node, raw_call_w; ev_cbn; fin y buf.
+  all: unfold observe; rewrite ?HM'; f_equal;
+    try match goal with
+        | |- bytes_at _ _ = _ => apply response_read; lia
+        | |- mread _ _ _ = truncate _ _ => apply response_read_u; lia
+        end.
+Qed.
+Lemma rcl_zero_KCall_111 : forall c cr y s buf, ptr_ok (y_data y) ->
+  observe 0 true (ev_top (mkG c cr (symtab y)) (gen_rawcall_legacy KCall 0 true true (sym "value_sym") buf) s)
+  = raw_call_w KCall 0 true c (y_to y) (y_value y) (bytes_at (s_mem s) (y_data y)) (s_world s).
+Proof.
+  intros c cr y s buf [Hd1 Hd2].
+  unfold gen_rawcall_legacy. rewrite ?eqb00.
+  unfold ev_top, ev1, sym, propagate, call_node, raw_call_w; ev_cbn; fin y buf.
+  all: unfold observe; cbn [Z.ltb Z.compare]; f_equal.
 Qed.
 
-Lemma rawcall_venom_zero : forall k R (hg : bool) glit vlit c cr y s fp tg,
-  ptr_ok (y_data y) ->
-  observe 0 R (run_vsite (mkG c cr (symtab y)) (gen_rawcall_venom k 0 R (if hg then SL glit else sym "gas") (SL vlit)) fp tg s)
-  = raw_call_w k 0 R c (y_to y) (match k with KCall => vlit | _ => 0 end) (bytes_at (s_mem s) (y_data y)) (s_world s).
+Lemma rcl_pos_KCall_110 : forall M vlit c cr y s buf, 0 < M < WW -> ptr_ok (y_data y) -> ptr_ok buf ->
+  observe M true (ev_top (mkG c cr (symtab y)) (gen_rawcall_legacy KCall M true true (SL vlit) buf) s)
+  = raw_call_w KCall M true c (y_to y) (vlit) (bytes_at (s_mem s) (y_data y)) (s_world s).
 Proof.
-  intros k R hg glit vlit c cr y s fp tg [Hd1 Hd2].
-  unfold gen_rawcall_venom. rewrite ?eqb00.
-  destruct k, R, hg; unfold run_vsite, sym, raw_call_w, kind_op; ev_cbn2; finv y.
+  intros M vlit c cr y s buf HM [Hd1 Hd2] [Hb1 Hb2].
+  unfold gen_rawcall_legacy. destruct (Z.eqb_spec M 0) as [E|_]; [lia|].
+  assert (HM' : (0 <? M) = true) by (apply Z.ltb_lt; lia).
+  unfold ev_top, ev1, sym, propagate, call_node, raw_call_w; ev_cbn; fin y buf.
+  all: unfold observe; rewrite ?HM'; f_equal;
+    try match goal with
+        | |- bytes_at _ _ = _ => apply response_read; lia
+        | |- mread _ _ _ = truncate _ _ => apply response_read_u; lia
+        end.
+Qed.
+Lemma rcl_zero_KCall_110 : forall vlit c cr y s buf, ptr_ok (y_data y) ->
+  observe 0 true (ev_top (mkG c cr (symtab y)) (gen_rawcall_legacy KCall 0 true true (SL vlit) buf) s)
+  = raw_call_w KCall 0 true c (y_to y) (vlit) (bytes_at (s_mem s) (y_data y)) (s_world s).
+Proof.
+  intros vlit c cr y s buf [Hd1 Hd2].
+  unfold gen_rawcall_legacy. rewrite ?eqb00.
+  unfold ev_top, ev1, sym, propagate, call_node, raw_call_w; ev_cbn; fin y buf.
   all: unfold observe; cbn [Z.ltb Z.compare]; f_equal.
+Qed.
+
+Lemma rcl_pos_KCall_101 : forall M c cr y s buf, 0 < M < WW -> ptr_ok (y_data y) -> ptr_ok buf ->
+  observe M true (ev_top (mkG c cr (symtab y)) (gen_rawcall_legacy KCall M true false (sym "value_sym") buf) s)
+  = raw_call_w KCall M true c (y_to y) (y_value y) (bytes_at (s_mem s) (y_data y)) (s_world s).
+Proof.
+  intros M c cr y s buf HM [Hd1 Hd2] [Hb1 Hb2].
+  unfold gen_rawcall_legacy. destruct (Z.eqb_spec M 0) as [E|_]; [lia|].
+  assert (HM' : (0 <? M) = true) by (apply Z.ltb_lt; lia).
+  unfold ev_top, ev1, sym, propagate, call_node, raw_call_w; ev_cbn; fin y buf.
+  all: unfold observe; rewrite ?HM'; f_equal;
+    try match goal with
+        | |- bytes_at _ _ = _ => apply response_read; lia
+        | |- mread _ _ _ = truncate _ _ => apply response_read_u; lia
+        end.
+Qed.
+Lemma rcl_zero_KCall_101 : forall c cr y s buf, ptr_ok (y_data y) ->
+  observe 0 true (ev_top (mkG c cr (symtab y)) (gen_rawcall_legacy KCall 0 true false (sym "value_sym") buf) s)
+  = raw_call_w KCall 0 true c (y_to y) (y_value y) (bytes_at (s_mem s) (y_data y)) (s_world s).
+Proof.
+  intros c cr y s buf [Hd1 Hd2].
+  unfold gen_rawcall_legacy. rewrite ?eqb00.
+  unfold ev_top, ev1, sym, propagate, call_node, raw_call_w; ev_cbn; fin y buf.
+  all: unfold observe; cbn [Z.ltb Z.compare]; f_equal.
+Qed.
+
+Lemma rcl_pos_KCall_100 : forall M vlit c cr y s buf, 0 < M < WW -> ptr_ok (y_data y) -> ptr_ok buf ->
+  observe M true (ev_top (mkG c cr (symtab y)) (gen_rawcall_legacy KCall M true false (SL vlit) buf) s)
+  = raw_call_w KCall M true c (y_to y) (vlit) (bytes_at (s_mem s) (y_data y)) (s_world s).
+Proof.
+  intros M vlit c cr y s buf HM [Hd1 Hd2] [Hb1 Hb2].
+  unfold gen_rawcall_legacy. destruct (Z.eqb_spec M 0) as [E|_]; [lia|].
+  assert (HM' : (0 <? M) = true) by (apply Z.ltb_lt; lia).
+  unfold ev_top, ev1, sym, propagate, call_node, raw_call_w; ev_cbn; fin y buf.
+  all: unfold observe; rewrite ?HM'; f_equal;
+    try match goal with
+        | |- bytes_at _ _ = _ => apply response_read; lia
+        | |- mread _ _ _ = truncate _ _ => apply response_read_u; lia
+        end.
+Qed.
+Lemma rcl_zero_KCall_100 : forall vlit c cr y s buf, ptr_ok (y_data y) ->
+  observe 0 true (ev_top (mkG c cr (symtab y)) (gen_rawcall_legacy KCall 0 true false (SL vlit) buf) s)
+  = raw_call_w KCall 0 true c (y_to y) (vlit) (bytes_at (s_mem s) (y_data y)) (s_world s).
+Proof.
+  intros vlit c cr y s buf [Hd1 Hd2].
+  unfold gen_rawcall_legacy. rewrite ?eqb00.
+  unfold ev_top, ev1, sym, propagate, call_node, raw_call_w; ev_cbn; fin y buf.
+  all: unfold observe; cbn [Z.ltb Z.compare]; f_equal.
+Qed.
+
+Lemma rcl_pos_KCall_011 : forall M c cr y s buf, 0 < M < WW -> ptr_ok (y_data y) -> ptr_ok buf ->
+  observe M false (ev_top (mkG c cr (symtab y)) (gen_rawcall_legacy KCall M false true (sym "value_sym") buf) s)
+  = raw_call_w KCall M false c (y_to y) (y_value y) (bytes_at (s_mem s) (y_data y)) (s_world s).
+Proof.
+  intros M c cr y s buf HM [Hd1 Hd2] [Hb1 Hb2].
+  unfold gen_rawcall_legacy. destruct (Z.eqb_spec M 0) as [E|_]; [lia|].
+  assert (HM' : (0 <? M) = true) by (apply Z.ltb_lt; lia).
+  unfold ev_top, ev1, sym, propagate, call_node, raw_call_w; ev_cbn; fin y buf.
+  all: unfold observe; rewrite ?HM'; f_equal;
+    try match goal with
+        | |- bytes_at _ _ = _ => apply response_read; lia
+        | |- mread _ _ _ = truncate _ _ => apply response_read_u; lia
+        end.
+Qed.
+Lemma rcl_zero_KCall_011 : forall c cr y s buf, ptr_ok (y_data y) ->
+  observe 0 false (ev_top (mkG c cr (symtab y)) (gen_rawcall_legacy KCall 0 false true (sym "value_sym") buf) s)
+  = raw_call_w KCall 0 false c (y_to y) (y_value y) (bytes_at (s_mem s) (y_data y)) (s_world s).
+Proof.
+  intros c cr y s buf [Hd1 Hd2].
+  unfold gen_rawcall_legacy. rewrite ?eqb00.
+  unfold ev_top, ev1, sym, propagate, call_node, raw_call_w; ev_cbn; fin y buf.
+  all: unfold observe; cbn [Z.ltb Z.compare]; f_equal.
+Qed.
+
+Lemma rcl_pos_KCall_010 : forall M vlit c cr y s buf, 0 < M < WW -> ptr_ok (y_data y) -> ptr_ok buf ->
+  observe M false (ev_top (mkG c cr (symtab y)) (gen_rawcall_legacy KCall M false true (SL vlit) buf) s)
+  = raw_call_w KCall M false c (y_to y) (vlit) (bytes_at (s_mem s) (y_data y)) (s_world s).
+Proof.
+  intros M vlit c cr y s buf HM [Hd1 Hd2] [Hb1 Hb2].
+  unfold gen_rawcall_legacy. destruct (Z.eqb_spec M 0) as [E|_]; [lia|].
+  assert (HM' : (0 <? M) = true) by (apply Z.ltb_lt; lia).
+  unfold ev_top, ev1, sym, propagate, call_node, raw_call_w; ev_cbn; fin y buf.
+  all: unfold observe; rewrite ?HM'; f_equal;
+    try match goal with
+        | |- bytes_at _ _ = _ => apply response_read; lia
+        | |- mread _ _ _ = truncate _ _ => apply response_read_u; lia
+        end.
+Qed.
+Lemma rcl_zero_KCall_010 : forall vlit c cr y s buf, ptr_ok (y_data y) ->
+  observe 0 false (ev_top (mkG c cr (symtab y)) (gen_rawcall_legacy KCall 0 false true (SL vlit) buf) s)
+  = raw_call_w KCall 0 false c (y_to y) (vlit) (bytes_at (s_mem s) (y_data y)) (s_world s).
+Proof.
+  intros vlit c cr y s buf [Hd1 Hd2].
+  unfold gen_rawcall_legacy. rewrite ?eqb00.
+  unfold ev_top, ev1, sym, propagate, call_node, raw_call_w; ev_cbn; fin y buf.
+  all: unfold observe; cbn [Z.ltb Z.compare]; f_equal.
+Qed.
+
+Lemma rcl_pos_KCall_001 : forall M c cr y s buf, 0 < M < WW -> ptr_ok (y_data y) -> ptr_ok buf ->
+  observe M false (ev_top (mkG c cr (symtab y)) (gen_rawcall_legacy KCall M false false (sym "value_sym") buf) s)
+  = raw_call_w KCall M false c (y_to y) (y_value y) (bytes_at (s_mem s) (y_data y)) (s_world s).
+Proof.
+  intros M c cr y s buf HM [Hd1 Hd2] [Hb1 Hb2].
+  unfold gen_rawcall_legacy. destruct (Z.eqb_spec M 0) as [E|_]; [lia|].
+  assert (HM' : (0 <? M) = true) by (apply Z.ltb_lt; lia).
+  unfold ev_top, ev1, sym, propagate, call_node, raw_call_w; ev_cbn; fin y buf.
+  all: unfold observe; rewrite ?HM'; f_equal;
+    try match goal with
+        | |- bytes_at _ _ = _ => apply response_read; lia
+        | |- mread _ _ _ = truncate _ _ => apply response_read_u; lia
+        end.
+Qed.
+Lemma rcl_zero_KCall_001 : forall c cr y s buf, ptr_ok (y_data y) ->
+  observe 0 false (ev_top (mkG c cr (symtab y)) (gen_rawcall_legacy KCall 0 false false (sym "value_sym") buf) s)
+  = raw_call_w KCall 0 false c (y_to y) (y_value y) (bytes_at (s_mem s) (y_data y)) (s_world s).
+Proof.
+  intros c cr y s buf [Hd1 Hd2].
+  unfold gen_rawcall_legacy. rewrite ?eqb00.
+  unfold ev_top, ev1, sym, propagate, call_node, raw_call_w; ev_cbn; fin y buf.
+  all: unfold observe; cbn [Z.ltb Z.compare]; f_equal.
+Qed.
+
+Lemma rcl_pos_KCall_000 : forall M vlit c cr y s buf, 0 < M < WW -> ptr_ok (y_data y) -> ptr_ok buf ->
+  observe M false (ev_top (mkG c cr (symtab y)) (gen_rawcall_legacy KCall M false false (SL vlit) buf) s)
+  = raw_call_w KCall M false c (y_to y) (vlit) (bytes_at (s_mem s) (y_data y)) (s_world s).
+Proof.
+  intros M vlit c cr y s buf HM [Hd1 Hd2] [Hb1 Hb2].
+  unfold gen_rawcall_legacy. destruct (Z.eqb_spec M 0) as [E|_]; [lia|].
+  assert (HM' : (0 <? M) = true) by (apply Z.ltb_lt; lia).
+  unfold ev_top, ev1, sym, propagate, call_node, raw_call_w; ev_cbn; fin y buf.
+  all: unfold observe; rewrite ?HM'; f_equal;
+    try match goal with
+        | |- bytes_at _ _ = _ => apply response_read; lia
+        | |- mread _ _ _ = truncate _ _ => apply response_read_u; lia
+        end.
+Qed.
+Lemma rcl_zero_KCall_000 : forall vlit c cr y s buf, ptr_ok (y_data y) ->
+  observe 0 false (ev_top (mkG c cr (symtab y)) (gen_rawcall_legacy KCall 0 false false (SL vlit) buf) s)
+  = raw_call_w KCall 0 false c (y_to y) (vlit) (bytes_at (s_mem s) (y_data y)) (s_world s).
+Proof.
+  intros vlit c cr y s buf [Hd1 Hd2].
+  unfold gen_rawcall_legacy. rewrite ?eqb00.
+  unfold ev_top, ev1, sym, propagate, call_node, raw_call_w; ev_cbn; fin y buf.
+  all: unfold observe; cbn [Z.ltb Z.compare]; f_equal.
+Qed.
+
+Lemma rcl_pos_KStatic_111 : forall M c cr y s buf, 0 < M < WW -> ptr_ok (y_data y) -> ptr_ok buf ->
+  observe M true (ev_top (mkG c cr (symtab y)) (gen_rawcall_legacy KStatic M true true (sym "value_sym") buf) s)
+  = raw_call_w KStatic M true c (y_to y) (0) (bytes_at (s_mem s) (y_data y)) (s_world s).
+Proof.
+  intros M c cr y s buf HM [Hd1 Hd2] [Hb1 Hb2].
+  unfold gen_rawcall_legacy. destruct (Z.eqb_spec M 0) as [E|_]; [lia|].
+  assert (HM' : (0 <? M) = true) by (apply Z.ltb_lt; lia).
+  unfold ev_top, ev1, sym, propagate, call_node, raw_call_w; ev_cbn; fin y buf.
+  all: unfold observe; rewrite ?HM'; f_equal;
+    try match goal with
+        | |- bytes_at _ _ = _ => apply response_read; lia
+        | |- mread _ _ _ = truncate _ _ => apply response_read_u; lia
+        end.
+Qed.
+Lemma rcl_zero_KStatic_111 : forall c cr y s buf, ptr_ok (y_data y) ->
+  observe 0 true (ev_top (mkG c cr (symtab y)) (gen_rawcall_legacy KStatic 0 true true (sym "value_sym") buf) s)
+  = raw_call_w KStatic 0 true c (y_to y) (0) (bytes_at (s_mem s) (y_data y)) (s_world s).
+Proof.
+  intros c cr y s buf [Hd1 Hd2].
+  unfold gen_rawcall_legacy. rewrite ?eqb00.
+  unfold ev_top, ev1, sym, propagate, call_node, raw_call_w; ev_cbn; fin y buf.
+  all: unfold observe; cbn [Z.ltb Z.compare]; f_equal.
+Qed.
+
+Lemma rcl_pos_KStatic_110 : forall M vlit c cr y s buf, 0 < M < WW -> ptr_ok (y_data y) -> ptr_ok buf ->
+  observe M true (ev_top (mkG c cr (symtab y)) (gen_rawcall_legacy KStatic M true true (SL vlit) buf) s)
+  = raw_call_w KStatic M true c (y_to y) (0) (bytes_at (s_mem s) (y_data y)) (s_world s).
+Proof.
+  intros M vlit c cr y s buf HM [Hd1 Hd2] [Hb1 Hb2].
+  unfold gen_rawcall_legacy. destruct (Z.eqb_spec M 0) as [E|_]; [lia|].
+  assert (HM' : (0 <? M) = true) by (apply Z.ltb_lt; lia).
+  unfold ev_top, ev1, sym, propagate, call_node, raw_call_w; ev_cbn; fin y buf.
+  all: unfold observe; rewrite ?HM'; f_equal;
+    try match goal with
+        | |- bytes_at _ _ = _ => apply response_read; lia
+        | |- mread _ _ _ = truncate _ _ => apply response_read_u; lia
+        end.
+Qed.
+Lemma rcl_zero_KStatic_110 : forall vlit c cr y s buf, ptr_ok (y_data y) ->
+  observe 0 true (ev_top (mkG c cr (symtab y)) (gen_rawcall_legacy KStatic 0 true true (SL vlit) buf) s)
+  = raw_call_w KStatic 0 true c (y_to y) (0) (bytes_at (s_mem s) (y_data y)) (s_world s).
+Proof.
+  intros vlit c cr y s buf [Hd1 Hd2].
+  unfold gen_rawcall_legacy. rewrite ?eqb00.
+  unfold ev_top, ev1, sym, propagate, call_node, raw_call_w; ev_cbn; fin y buf.
+  all: unfold observe; cbn [Z.ltb Z.compare]; f_equal.
+Qed.
+
+Lemma rcl_pos_KStatic_101 : forall M c cr y s buf, 0 < M < WW -> ptr_ok (y_data y) -> ptr_ok buf ->
+  observe M true (ev_top (mkG c cr (symtab y)) (gen_rawcall_legacy KStatic M true false (sym "value_sym") buf) s)
+  = raw_call_w KStatic M true c (y_to y) (0) (bytes_at (s_mem s) (y_data y)) (s_world s).
+Proof.
+  intros M c cr y s buf HM [Hd1 Hd2] [Hb1 Hb2].
+  unfold gen_rawcall_legacy. destruct (Z.eqb_spec M 0) as [E|_]; [lia|].
+  assert (HM' : (0 <? M) = true) by (apply Z.ltb_lt; lia).
+  unfold ev_top, ev1, sym, propagate, call_node, raw_call_w; ev_cbn; fin y buf.
+  all: unfold observe; rewrite ?HM'; f_equal;
+    try match goal with
+        | |- bytes_at _ _ = _ => apply response_read; lia
+        | |- mread _ _ _ = truncate _ _ => apply response_read_u; lia
+        end.
+Qed.
+Lemma rcl_zero_KStatic_101 : forall c cr y s buf, ptr_ok (y_data y) ->
+  observe 0 true (ev_top (mkG c cr (symtab y)) (gen_rawcall_legacy KStatic 0 true false (sym "value_sym") buf) s)
+  = raw_call_w KStatic 0 true c (y_to y) (0) (bytes_at (s_mem s) (y_data y)) (s_world s).
+Proof.
+  intros c cr y s buf [Hd1 Hd2].
+  unfold gen_rawcall_legacy. rewrite ?eqb00.
+  unfold ev_top, ev1, sym, propagate, call_node, raw_call_w; ev_cbn; fin y buf.
+  all: unfold observe; cbn [Z.ltb Z.compare]; f_equal.
+Qed.
+
+Lemma rcl_pos_KStatic_100 : forall M vlit c cr y s buf, 0 < M < WW -> ptr_ok (y_data y) -> ptr_ok buf ->
+  observe M true (ev_top (mkG c cr (symtab y)) (gen_rawcall_legacy KStatic M true false (SL vlit) buf) s)
+  = raw_call_w KStatic M true c (y_to y) (0) (bytes_at (s_mem s) (y_data y)) (s_world s).
+Proof.
+  intros M vlit c cr y s buf HM [Hd1 Hd2] [Hb1 Hb2].
+  unfold gen_rawcall_legacy. destruct (Z.eqb_spec M 0) as [E|_]; [lia|].
+  assert (HM' : (0 <? M) = true) by (apply Z.ltb_lt; lia).
+  unfold ev_top, ev1, sym, propagate, call_node, raw_call_w; ev_cbn; fin y buf.
+  all: unfold observe; rewrite ?HM'; f_equal;
+    try match goal with
+        | |- bytes_at _ _ = _ => apply response_read; lia
+        | |- mread _ _ _ = truncate _ _ => apply response_read_u; lia
+        end.
+Qed.
+Lemma rcl_zero_KStatic_100 : forall vlit c cr y s buf, ptr_ok (y_data y) ->
+  observe 0 true (ev_top (mkG c cr (symtab y)) (gen_rawcall_legacy KStatic 0 true false (SL vlit) buf) s)
+  = raw_call_w KStatic 0 true c (y_to y) (0) (bytes_at (s_mem s) (y_data y)) (s_world s).
+Proof.
+  intros vlit c cr y s buf [Hd1 Hd2].
+  unfold gen_rawcall_legacy. rewrite ?eqb00.
+  unfold ev_top, ev1, sym, propagate, call_node, raw_call_w; ev_cbn; fin y buf.
+  all: unfold observe; cbn [Z.ltb Z.compare]; f_equal.
+Qed.
+
+Lemma rcl_pos_KStatic_011 : forall M c cr y s buf, 0 < M < WW -> ptr_ok (y_data y) -> ptr_ok buf ->
+  observe M false (ev_top (mkG c cr (symtab y)) (gen_rawcall_legacy KStatic M false true (sym "value_sym") buf) s)
+  = raw_call_w KStatic M false c (y_to y) (0) (bytes_at (s_mem s) (y_data y)) (s_world s).
+Proof.
+  intros M c cr y s buf HM [Hd1 Hd2] [Hb1 Hb2].
+  unfold gen_rawcall_legacy. destruct (Z.eqb_spec M 0) as [E|_]; [lia|].
+  assert (HM' : (0 <? M) = true) by (apply Z.ltb_lt; lia).
+  unfold ev_top, ev1, sym, propagate, call_node, raw_call_w; ev_cbn; fin y buf.
+  all: unfold observe; rewrite ?HM'; f_equal;
+    try match goal with
+        | |- bytes_at _ _ = _ => apply response_read; lia
+        | |- mread _ _ _ = truncate _ _ => apply response_read_u; lia
+        end.
+Qed.
+Lemma rcl_zero_KStatic_011 : forall c cr y s buf, ptr_ok (y_data y) ->
+  observe 0 false (ev_top (mkG c cr (symtab y)) (gen_rawcall_legacy KStatic 0 false true (sym "value_sym") buf) s)
+  = raw_call_w KStatic 0 false c (y_to y) (0) (bytes_at (s_mem s) (y_data y)) (s_world s).
+Proof.
+  intros c cr y s buf [Hd1 Hd2].
+  unfold gen_rawcall_legacy. rewrite ?eqb00.
+  unfold ev_top, ev1, sym, propagate, call_node, raw_call_w; ev_cbn; fin y buf.
+  all: unfold observe; cbn [Z.ltb Z.compare]; f_equal.
+Qed.
+
+Lemma rcl_pos_KStatic_010 : forall M vlit c cr y s buf, 0 < M < WW -> ptr_ok (y_data y) -> ptr_ok buf ->
+  observe M false (ev_top (mkG c cr (symtab y)) (gen_rawcall_legacy KStatic M false true (SL vlit) buf) s)
+  = raw_call_w KStatic M false c (y_to y) (0) (bytes_at (s_mem s) (y_data y)) (s_world s).
+Proof.
+  intros M vlit c cr y s buf HM [Hd1 Hd2] [Hb1 Hb2].
+  unfold gen_rawcall_legacy. destruct (Z.eqb_spec M 0) as [E|_]; [lia|].
+  assert (HM' : (0 <? M) = true) by (apply Z.ltb_lt; lia).
+  unfold ev_top, ev1, sym, propagate, call_node, raw_call_w; ev_cbn; fin y buf.
+  all: unfold observe; rewrite ?HM'; f_equal;
+    try match goal with
+        | |- bytes_at _ _ = _ => apply response_read; lia
+        | |- mread _ _ _ = truncate _ _ => apply response_read_u; lia
+        end.
+Qed.
+Lemma rcl_zero_KStatic_010 : forall vlit c cr y s buf, ptr_ok (y_data y) ->
+  observe 0 false (ev_top (mkG c cr (symtab y)) (gen_rawcall_legacy KStatic 0 false true (SL vlit) buf) s)
+  = raw_call_w KStatic 0 false c (y_to y) (0) (bytes_at (s_mem s) (y_data y)) (s_world s).
+Proof.
+  intros vlit c cr y s buf [Hd1 Hd2].
+  unfold gen_rawcall_legacy. rewrite ?eqb00.
+  unfold ev_top, ev1, sym, propagate, call_node, raw_call_w; ev_cbn; fin y buf.
+  all: unfold observe; cbn [Z.ltb Z.compare]; f_equal.
+Qed.
+
+Lemma rcl_pos_KStatic_001 : forall M c cr y s buf, 0 < M < WW -> ptr_ok (y_data y) -> ptr_ok buf ->
+  observe M false (ev_top (mkG c cr (symtab y)) (gen_rawcall_legacy KStatic M false false (sym "value_sym") buf) s)
+  = raw_call_w KStatic M false c (y_to y) (0) (bytes_at (s_mem s) (y_data y)) (s_world s).
+Proof.
+  intros M c cr y s buf HM [Hd1 Hd2] [Hb1 Hb2].
+  unfold gen_rawcall_legacy. destruct (Z.eqb_spec M 0) as [E|_]; [lia|].
+  assert (HM' : (0 <? M) = true) by (apply Z.ltb_lt; lia).
+  unfold ev_top, ev1, sym, propagate, call_node, raw_call_w; ev_cbn; fin y buf.
+  all: unfold observe; rewrite ?HM'; f_equal;
+    try match goal with
+        | |- bytes_at _ _ = _ => apply response_read; lia
+        | |- mread _ _ _ = truncate _ _ => apply response_read_u; lia
+        end.
+Qed.
+Lemma rcl_zero_KStatic_001 : forall c cr y s buf, ptr_ok (y_data y) ->
+  observe 0 false (ev_top (mkG c cr (symtab y)) (gen_rawcall_legacy KStatic 0 false false (sym "value_sym") buf) s)
+  = raw_call_w KStatic 0 false c (y_to y) (0) (bytes_at (s_mem s) (y_data y)) (s_world s).
+Proof.
+  intros c cr y s buf [Hd1 Hd2].
+  unfold gen_rawcall_legacy. rewrite ?eqb00.
+  unfold ev_top, ev1, sym, propagate, call_node, raw_call_w; ev_cbn; fin y buf.
+  all: unfold observe; cbn [Z.ltb Z.compare]; f_equal.
+Qed.
+
+Lemma rcl_pos_KStatic_000 : forall M vlit c cr y s buf, 0 < M < WW -> ptr_ok (y_data y) -> ptr_ok buf ->
+  observe M false (ev_top (mkG c cr (symtab y)) (gen_rawcall_legacy KStatic M false false (SL vlit) buf) s)
+  = raw_call_w KStatic M false c (y_to y) (0) (bytes_at (s_mem s) (y_data y)) (s_world s).
+Proof.
+  intros M vlit c cr y s buf HM [Hd1 Hd2] [Hb1 Hb2].
+  unfold gen_rawcall_legacy. destruct (Z.eqb_spec M 0) as [E|_]; [lia|].
+  assert (HM' : (0 <? M) = true) by (apply Z.ltb_lt; lia).
+  unfold ev_top, ev1, sym, propagate, call_node, raw_call_w; ev_cbn; fin y buf.
+  all: unfold observe; rewrite ?HM'; f_equal;
+    try match goal with
+        | |- bytes_at _ _ = _ => apply response_read; lia
+        | |- mread _ _ _ = truncate _ _ => apply response_read_u; lia
+        end.
+Qed.
+Lemma rcl_zero_KStatic_000 : forall vlit c cr y s buf, ptr_ok (y_data y) ->
+  observe 0 false (ev_top (mkG c cr (symtab y)) (gen_rawcall_legacy KStatic 0 false false (SL vlit) buf) s)
+  = raw_call_w KStatic 0 false c (y_to y) (0) (bytes_at (s_mem s) (y_data y)) (s_world s).
+Proof.
+  intros vlit c cr y s buf [Hd1 Hd2].
+  unfold gen_rawcall_legacy. rewrite ?eqb00.
+  unfold ev_top, ev1, sym, propagate, call_node, raw_call_w; ev_cbn; fin y buf.
+  all: unfold observe; cbn [Z.ltb Z.compare]; f_equal.
+Qed.
+
+Lemma rcl_pos_KDelegate_111 : forall M c cr y s buf, 0 < M < WW -> ptr_ok (y_data y) -> ptr_ok buf ->
+  observe M true (ev_top (mkG c cr (symtab y)) (gen_rawcall_legacy KDelegate M true true (sym "value_sym") buf) s)
+  = raw_call_w KDelegate M true c (y_to y) (0) (bytes_at (s_mem s) (y_data y)) (s_world s).
+Proof.
+  intros M c cr y s buf HM [Hd1 Hd2] [Hb1 Hb2].
+  unfold gen_rawcall_legacy. destruct (Z.eqb_spec M 0) as [E|_]; [lia|].
+  assert (HM' : (0 <? M) = true) by (apply Z.ltb_lt; lia).
+  unfold ev_top, ev1, sym, propagate, call_node, raw_call_w; ev_cbn; fin y buf.
+  all: unfold observe; rewrite ?HM'; f_equal;
+    try match goal with
+        | |- bytes_at _ _ = _ => apply response_read; lia
+        | |- mread _ _ _ = truncate _ _ => apply response_read_u; lia
+        end.
+Qed.
+Lemma rcl_zero_KDelegate_111 : forall c cr y s buf, ptr_ok (y_data y) ->
+  observe 0 true (ev_top (mkG c cr (symtab y)) (gen_rawcall_legacy KDelegate 0 true true (sym "value_sym") buf) s)
+  = raw_call_w KDelegate 0 true c (y_to y) (0) (bytes_at (s_mem s) (y_data y)) (s_world s).
+Proof.
+  intros c cr y s buf [Hd1 Hd2].
+  unfold gen_rawcall_legacy. rewrite ?eqb00.
+  unfold ev_top, ev1, sym, propagate, call_node, raw_call_w; ev_cbn; fin y buf.
+  all: unfold observe; cbn [Z.ltb Z.compare]; f_equal.
+Qed.
+
+Lemma rcl_pos_KDelegate_110 : forall M vlit c cr y s buf, 0 < M < WW -> ptr_ok (y_data y) -> ptr_ok buf ->
+  observe M true (ev_top (mkG c cr (symtab y)) (gen_rawcall_legacy KDelegate M true true (SL vlit) buf) s)
+  = raw_call_w KDelegate M true c (y_to y) (0) (bytes_at (s_mem s) (y_data y)) (s_world s).
+Proof.
+  intros M vlit c cr y s buf HM [Hd1 Hd2] [Hb1 Hb2].
+  unfold gen_rawcall_legacy. destruct (Z.eqb_spec M 0) as [E|_]; [lia|].
+  assert (HM' : (0 <? M) = true) by (apply Z.ltb_lt; lia).
+  unfold ev_top, ev1, sym, propagate, call_node, raw_call_w; ev_cbn; fin y buf.
+  all: unfold observe; rewrite ?HM'; f_equal;
+    try match goal with
+        | |- bytes_at _ _ = _ => apply response_read; lia
+        | |- mread _ _ _ = truncate _ _ => apply response_read_u; lia
+        end.
+Qed.
+Lemma rcl_zero_KDelegate_110 : forall vlit c cr y s buf, ptr_ok (y_data y) ->
+  observe 0 true (ev_top (mkG c cr (symtab y)) (gen_rawcall_legacy KDelegate 0 true true (SL vlit) buf) s)
+  = raw_call_w KDelegate 0 true c (y_to y) (0) (bytes_at (s_mem s) (y_data y)) (s_world s).
+Proof.
+  intros vlit c cr y s buf [Hd1 Hd2].
+  unfold gen_rawcall_legacy. rewrite ?eqb00.
+  unfold ev_top, ev1, sym, propagate, call_node, raw_call_w; ev_cbn; fin y buf.
+  all: unfold observe; cbn [Z.ltb Z.compare]; f_equal.
+Qed.
+
+Lemma rcl_pos_KDelegate_101 : forall M c cr y s buf, 0 < M < WW -> ptr_ok (y_data y) -> ptr_ok buf ->
+  observe M true (ev_top (mkG c cr (symtab y)) (gen_rawcall_legacy KDelegate M true false (sym "value_sym") buf) s)
+  = raw_call_w KDelegate M true c (y_to y) (0) (bytes_at (s_mem s) (y_data y)) (s_world s).
+Proof.
+  intros M c cr y s buf HM [Hd1 Hd2] [Hb1 Hb2].
+  unfold gen_rawcall_legacy. destruct (Z.eqb_spec M 0) as [E|_]; [lia|].
+  assert (HM' : (0 <? M) = true) by (apply Z.ltb_lt; lia).
+  unfold ev_top, ev1, sym, propagate, call_node, raw_call_w; ev_cbn; fin y buf.
+  all: unfold observe; rewrite ?HM'; f_equal;
+    try match goal with
+        | |- bytes_at _ _ = _ => apply response_read; lia
+        | |- mread _ _ _ = truncate _ _ => apply response_read_u; lia
+        end.
+Qed.
+Lemma rcl_zero_KDelegate_101 : forall c cr y s buf, ptr_ok (y_data y) ->
+  observe 0 true (ev_top (mkG c cr (symtab y)) (gen_rawcall_legacy KDelegate 0 true false (sym "value_sym") buf) s)
+  = raw_call_w KDelegate 0 true c (y_to y) (0) (bytes_at (s_mem s) (y_data y)) (s_world s).
+Proof.
+  intros c cr y s buf [Hd1 Hd2].
+  unfold gen_rawcall_legacy. rewrite ?eqb00.
+  unfold ev_top, ev1, sym, propagate, call_node, raw_call_w; ev_cbn; fin y buf.
+  all: unfold observe; cbn [Z.ltb Z.compare]; f_equal.
+Qed.
+
+Lemma rcl_pos_KDelegate_100 : forall M vlit c cr y s buf, 0 < M < WW -> ptr_ok (y_data y) -> ptr_ok buf ->
+  observe M true (ev_top (mkG c cr (symtab y)) (gen_rawcall_legacy KDelegate M true false (SL vlit) buf) s)
+  = raw_call_w KDelegate M true c (y_to y) (0) (bytes_at (s_mem s) (y_data y)) (s_world s).
+Proof.
+  intros M vlit c cr y s buf HM [Hd1 Hd2] [Hb1 Hb2].
+  unfold gen_rawcall_legacy. destruct (Z.eqb_spec M 0) as [E|_]; [lia|].
+  assert (HM' : (0 <? M) = true) by (apply Z.ltb_lt; lia).
+  unfold ev_top, ev1, sym, propagate, call_node, raw_call_w; ev_cbn; fin y buf.
+  all: unfold observe; rewrite ?HM'; f_equal;
+    try match goal with
+        | |- bytes_at _ _ = _ => apply response_read; lia
+        | |- mread _ _ _ = truncate _ _ => apply response_read_u; lia
+        end.
+Qed.
+Lemma rcl_zero_KDelegate_100 : forall vlit c cr y s buf, ptr_ok (y_data y) ->
+  observe 0 true (ev_top (mkG c cr (symtab y)) (gen_rawcall_legacy KDelegate 0 true false (SL vlit) buf) s)
+  = raw_call_w KDelegate 0 true c (y_to y) (0) (bytes_at (s_mem s) (y_data y)) (s_world s).
+Proof.
+  intros vlit c cr y s buf [Hd1 Hd2].
+  unfold gen_rawcall_legacy. rewrite ?eqb00.
+  unfold ev_top, ev1, sym, propagate, call_node, raw_call_w; ev_cbn; fin y buf.
+  all: unfold observe; cbn [Z.ltb Z.compare]; f_equal.
+Qed.
+
+Lemma rcl_pos_KDelegate_011 : forall M c cr y s buf, 0 < M < WW -> ptr_ok (y_data y) -> ptr_ok buf ->
+  observe M false (ev_top (mkG c cr (symtab y)) (gen_rawcall_legacy KDelegate M false true (sym "value_sym") buf) s)
+  = raw_call_w KDelegate M false c (y_to y) (0) (bytes_at (s_mem s) (y_data y)) (s_world s).
+Proof.
+  intros M c cr y s buf HM [Hd1 Hd2] [Hb1 Hb2].
+  unfold gen_rawcall_legacy. destruct (Z.eqb_spec M 0) as [E|_]; [lia|].
+  assert (HM' : (0 <? M) = true) by (apply Z.ltb_lt; lia).
+  unfold ev_top, ev1, sym, propagate, call_node, raw_call_w; ev_cbn; fin y buf.
+  all: unfold observe; rewrite ?HM'; f_equal;
+    try match goal with
+        | |- bytes_at _ _ = _ => apply response_read; lia
+        | |- mread _ _ _ = truncate _ _ => apply response_read_u; lia
+        end.
+Qed.
+Lemma rcl_zero_KDelegate_011 : forall c cr y s buf, ptr_ok (y_data y) ->
+  observe 0 false (ev_top (mkG c cr (symtab y)) (gen_rawcall_legacy KDelegate 0 false true (sym "value_sym") buf) s)
+  = raw_call_w KDelegate 0 false c (y_to y) (0) (bytes_at (s_mem s) (y_data y)) (s_world s).
+Proof.
+  intros c cr y s buf [Hd1 Hd2].
+  unfold gen_rawcall_legacy. rewrite ?eqb00.
+  unfold ev_top, ev1, sym, propagate, call_node, raw_call_w; ev_cbn; fin y buf.
+  all: unfold observe; cbn [Z.ltb Z.compare]; f_equal.
+Qed.
+
+Lemma rcl_pos_KDelegate_010 : forall M vlit c cr y s buf, 0 < M < WW -> ptr_ok (y_data y) -> ptr_ok buf ->
+  observe M false (ev_top (mkG c cr (symtab y)) (gen_rawcall_legacy KDelegate M false true (SL vlit) buf) s)
+  = raw_call_w KDelegate M false c (y_to y) (0) (bytes_at (s_mem s) (y_data y)) (s_world s).
+Proof.
+  intros M vlit c cr y s buf HM [Hd1 Hd2] [Hb1 Hb2].
+  unfold gen_rawcall_legacy. destruct (Z.eqb_spec M 0) as [E|_]; [lia|].
+  assert (HM' : (0 <? M) = true) by (apply Z.ltb_lt; lia).
+  unfold ev_top, ev1, sym, propagate, call_node, raw_call_w; ev_cbn; fin y buf.
+  all: unfold observe; rewrite ?HM'; f_equal;
+    try match goal with
+        | |- bytes_at _ _ = _ => apply response_read; lia
+        | |- mread _ _ _ = truncate _ _ => apply response_read_u; lia
+        end.
+Qed.
+Lemma rcl_zero_KDelegate_010 : forall vlit c cr y s buf, ptr_ok (y_data y) ->
+  observe 0 false (ev_top (mkG c cr (symtab y)) (gen_rawcall_legacy KDelegate 0 false true (SL vlit) buf) s)
+  = raw_call_w KDelegate 0 false c (y_to y) (0) (bytes_at (s_mem s) (y_data y)) (s_world s).
+Proof.
+  intros vlit c cr y s buf [Hd1 Hd2].
+  unfold gen_rawcall_legacy. rewrite ?eqb00.
+  unfold ev_top, ev1, sym, propagate, call_node, raw_call_w; ev_cbn; fin y buf.
+  all: unfold observe; cbn [Z.ltb Z.compare]; f_equal.
+Qed.
+
+Lemma rcl_pos_KDelegate_001 : forall M c cr y s buf, 0 < M < WW -> ptr_ok (y_data y) -> ptr_ok buf ->
+  observe M false (ev_top (mkG c cr (symtab y)) (gen_rawcall_legacy KDelegate M false false (sym "value_sym") buf) s)
+  = raw_call_w KDelegate M false c (y_to y) (0) (bytes_at (s_mem s) (y_data y)) (s_world s).
+Proof.
+  intros M c cr y s buf HM [Hd1 Hd2] [Hb1 Hb2].
+  unfold gen_rawcall_legacy. destruct (Z.eqb_spec M 0) as [E|_]; [lia|].
+  assert (HM' : (0 <? M) = true) by (apply Z.ltb_lt; lia).
+  unfold ev_top, ev1, sym, propagate, call_node, raw_call_w; ev_cbn; fin y buf.
+  all: unfold observe; rewrite ?HM'; f_equal;
+    try match goal with
+        | |- bytes_at _ _ = _ => apply response_read; lia
+        | |- mread _ _ _ = truncate _ _ => apply response_read_u; lia
+        end.
+Qed.
+Lemma rcl_zero_KDelegate_001 : forall c cr y s buf, ptr_ok (y_data y) ->
+  observe 0 false (ev_top (mkG c cr (symtab y)) (gen_rawcall_legacy KDelegate 0 false false (sym "value_sym") buf) s)
+  = raw_call_w KDelegate 0 false c (y_to y) (0) (bytes_at (s_mem s) (y_data y)) (s_world s).
+Proof.
+  intros c cr y s buf [Hd1 Hd2].
+  unfold gen_rawcall_legacy. rewrite ?eqb00.
+  unfold ev_top, ev1, sym, propagate, call_node, raw_call_w; ev_cbn; fin y buf.
+  all: unfold observe; cbn [Z.ltb Z.compare]; f_equal.
+Qed.
+
+Lemma rcl_pos_KDelegate_000 : forall M vlit c cr y s buf, 0 < M < WW -> ptr_ok (y_data y) -> ptr_ok buf ->
+  observe M false (ev_top (mkG c cr (symtab y)) (gen_rawcall_legacy KDelegate M false false (SL vlit) buf) s)
+  = raw_call_w KDelegate M false c (y_to y) (0) (bytes_at (s_mem s) (y_data y)) (s_world s).
+Proof.
+  intros M vlit c cr y s buf HM [Hd1 Hd2] [Hb1 Hb2].
+  unfold gen_rawcall_legacy. destruct (Z.eqb_spec M 0) as [E|_]; [lia|].
+  assert (HM' : (0 <? M) = true) by (apply Z.ltb_lt; lia).
+  unfold ev_top, ev1, sym, propagate, call_node, raw_call_w; ev_cbn; fin y buf.
+  all: unfold observe; rewrite ?HM'; f_equal;
+    try match goal with
+        | |- bytes_at _ _ = _ => apply response_read; lia
+        | |- mread _ _ _ = truncate _ _ => apply response_read_u; lia
+        end.
+Qed.
+Lemma rcl_zero_KDelegate_000 : forall vlit c cr y s buf, ptr_ok (y_data y) ->
+  observe 0 false (ev_top (mkG c cr (symtab y)) (gen_rawcall_legacy KDelegate 0 false false (SL vlit) buf) s)
+  = raw_call_w KDelegate 0 false c (y_to y) (0) (bytes_at (s_mem s) (y_data y)) (s_world s).
+Proof.
+  intros vlit c cr y s buf [Hd1 Hd2].
+  unfold gen_rawcall_legacy. rewrite ?eqb00.
+  unfold ev_top, ev1, sym, propagate, call_node, raw_call_w; ev_cbn; fin y buf.
+  all: unfold observe; cbn [Z.ltb Z.compare]; f_equal.
+Qed.
+
+Lemma rcv_pos_KCall_11 : forall M (glit vlit : Z) c cr y s fp tg, 0 < M < WW -> ptr_ok (y_data y) -> ptr_ok (y_out y) ->
+  observe M true (run_vsite (mkG c cr (symtab y)) (gen_rawcall_venom KCall M true (SL glit) (SL vlit)) fp tg s)
+  = raw_call_w KCall M true c (y_to y) (vlit) (bytes_at (s_mem s) (y_data y)) (s_world s).
+Proof.
+  intros M glit vlit c cr y s fp tg HM [Hd1 Hd2] [Hb1 Hb2].
+  unfold gen_rawcall_venom. destruct (Z.eqb_spec M 0) as [E|_]; [lia|].
+  assert (HM' : (0 <? M) = true) by (apply Z.ltb_lt; lia).
+  unfold run_vsite, cap_tree, sym, raw_call_w, kind_op; ev_cbn2; finv y.
+  all: unfold observe; rewrite ?HM'; f_equal;
+    try match goal with
+        | |- bytes_at _ _ = _ => apply response_read; lia
+        | |- mread _ _ _ = truncate _ _ => apply response_read_u; lia
+        end.
+Qed.
+Lemma rcv_zero_KCall_11 : forall (glit vlit : Z) c cr y s fp tg, ptr_ok (y_data y) ->
+  observe 0 true (run_vsite (mkG c cr (symtab y)) (gen_rawcall_venom KCall 0 true (SL glit) (SL vlit)) fp tg s)
+  = raw_call_w KCall 0 true c (y_to y) (vlit) (bytes_at (s_mem s) (y_data y)) (s_world s).
+Proof.
+  intros glit vlit c cr y s fp tg [Hd1 Hd2].
+  unfold gen_rawcall_venom. rewrite ?eqb00.
+  unfold run_vsite, sym, raw_call_w, kind_op; ev_cbn2; finv y.
+  all: unfold observe; cbn [Z.ltb Z.compare]; f_equal.
+Qed.
+
+Lemma rcv_pos_KCall_10 : forall M (glit vlit : Z) c cr y s fp tg, 0 < M < WW -> ptr_ok (y_data y) -> ptr_ok (y_out y) ->
+  observe M true (run_vsite (mkG c cr (symtab y)) (gen_rawcall_venom KCall M true (sym "gas") (SL vlit)) fp tg s)
+  = raw_call_w KCall M true c (y_to y) (vlit) (bytes_at (s_mem s) (y_data y)) (s_world s).
+Proof.
+  intros M glit vlit c cr y s fp tg HM [Hd1 Hd2] [Hb1 Hb2].
+  unfold gen_rawcall_venom. destruct (Z.eqb_spec M 0) as [E|_]; [lia|].
+  assert (HM' : (0 <? M) = true) by (apply Z.ltb_lt; lia).
+  unfold run_vsite, cap_tree, sym, raw_call_w, kind_op; ev_cbn2; finv y.
+  all: unfold observe; rewrite ?HM'; f_equal;
+    try match goal with
+        | |- bytes_at _ _ = _ => apply response_read; lia
+        | |- mread _ _ _ = truncate _ _ => apply response_read_u; lia
+        end.
+Qed.
+Lemma rcv_zero_KCall_10 : forall (glit vlit : Z) c cr y s fp tg, ptr_ok (y_data y) ->
+  observe 0 true (run_vsite (mkG c cr (symtab y)) (gen_rawcall_venom KCall 0 true (sym "gas") (SL vlit)) fp tg s)
+  = raw_call_w KCall 0 true c (y_to y) (vlit) (bytes_at (s_mem s) (y_data y)) (s_world s).
+Proof.
+  intros glit vlit c cr y s fp tg [Hd1 Hd2].
+  unfold gen_rawcall_venom. rewrite ?eqb00.
+  unfold run_vsite, sym, raw_call_w, kind_op; ev_cbn2; finv y.
+  all: unfold observe; cbn [Z.ltb Z.compare]; f_equal.
+Qed.
+
+Lemma rcv_pos_KCall_01 : forall M (glit vlit : Z) c cr y s fp tg, 0 < M < WW -> ptr_ok (y_data y) -> ptr_ok (y_out y) ->
+  observe M false (run_vsite (mkG c cr (symtab y)) (gen_rawcall_venom KCall M false (SL glit) (SL vlit)) fp tg s)
+  = raw_call_w KCall M false c (y_to y) (vlit) (bytes_at (s_mem s) (y_data y)) (s_world s).
+Proof.
+  intros M glit vlit c cr y s fp tg HM [Hd1 Hd2] [Hb1 Hb2].
+  unfold gen_rawcall_venom. destruct (Z.eqb_spec M 0) as [E|_]; [lia|].
+  assert (HM' : (0 <? M) = true) by (apply Z.ltb_lt; lia).
+  unfold run_vsite, cap_tree, sym, raw_call_w, kind_op; ev_cbn2; finv y.
+  all: unfold observe; rewrite ?HM'; f_equal;
+    try match goal with
+        | |- bytes_at _ _ = _ => apply response_read; lia
+        | |- mread _ _ _ = truncate _ _ => apply response_read_u; lia
+        end.
+Qed.
+Lemma rcv_zero_KCall_01 : forall (glit vlit : Z) c cr y s fp tg, ptr_ok (y_data y) ->
+  observe 0 false (run_vsite (mkG c cr (symtab y)) (gen_rawcall_venom KCall 0 false (SL glit) (SL vlit)) fp tg s)
+  = raw_call_w KCall 0 false c (y_to y) (vlit) (bytes_at (s_mem s) (y_data y)) (s_world s).
+Proof.
+  intros glit vlit c cr y s fp tg [Hd1 Hd2].
+  unfold gen_rawcall_venom. rewrite ?eqb00.
+  unfold run_vsite, sym, raw_call_w, kind_op; ev_cbn2; finv y.
+  all: unfold observe; cbn [Z.ltb Z.compare]; f_equal.
+Qed.
+
+Lemma rcv_pos_KCall_00 : forall M (glit vlit : Z) c cr y s fp tg, 0 < M < WW -> ptr_ok (y_data y) -> ptr_ok (y_out y) ->
+  observe M false (run_vsite (mkG c cr (symtab y)) (gen_rawcall_venom KCall M false (sym "gas") (SL vlit)) fp tg s)
+  = raw_call_w KCall M false c (y_to y) (vlit) (bytes_at (s_mem s) (y_data y)) (s_world s).
+Proof.
+  intros M glit vlit c cr y s fp tg HM [Hd1 Hd2] [Hb1 Hb2].
+  unfold gen_rawcall_venom. destruct (Z.eqb_spec M 0) as [E|_]; [lia|].
+  assert (HM' : (0 <? M) = true) by (apply Z.ltb_lt; lia).
+  unfold run_vsite, cap_tree, sym, raw_call_w, kind_op; ev_cbn2; finv y.
+  all: unfold observe; rewrite ?HM'; f_equal;
+    try match goal with
+        | |- bytes_at _ _ = _ => apply response_read; lia
+        | |- mread _ _ _ = truncate _ _ => apply response_read_u; lia
+        end.
+Qed.
+Lemma rcv_zero_KCall_00 : forall (glit vlit : Z) c cr y s fp tg, ptr_ok (y_data y) ->
+  observe 0 false (run_vsite (mkG c cr (symtab y)) (gen_rawcall_venom KCall 0 false (sym "gas") (SL vlit)) fp tg s)
+  = raw_call_w KCall 0 false c (y_to y) (vlit) (bytes_at (s_mem s) (y_data y)) (s_world s).
+Proof.
+  intros glit vlit c cr y s fp tg [Hd1 Hd2].
+  unfold gen_rawcall_venom. rewrite ?eqb00.
+  unfold run_vsite, sym, raw_call_w, kind_op; ev_cbn2; finv y.
+  all: unfold observe; cbn [Z.ltb Z.compare]; f_equal.
+Qed.
+
+Lemma rcv_pos_KStatic_11 : forall M (glit vlit : Z) c cr y s fp tg, 0 < M < WW -> ptr_ok (y_data y) -> ptr_ok (y_out y) ->
+  observe M true (run_vsite (mkG c cr (symtab y)) (gen_rawcall_venom KStatic M true (SL glit) (SL vlit)) fp tg s)
+  = raw_call_w KStatic M true c (y_to y) (0) (bytes_at (s_mem s) (y_data y)) (s_world s).
+Proof.
+  intros M glit vlit c cr y s fp tg HM [Hd1 Hd2] [Hb1 Hb2].
+  unfold gen_rawcall_venom. destruct (Z.eqb_spec M 0) as [E|_]; [lia|].
+  assert (HM' : (0 <? M) = true) by (apply Z.ltb_lt; lia).
+  unfold run_vsite, cap_tree, sym, raw_call_w, kind_op; ev_cbn2; finv y.
+  all: unfold observe; rewrite ?HM'; f_equal;
+    try match goal with
+        | |- bytes_at _ _ = _ => apply response_read; lia
+        | |- mread _ _ _ = truncate _ _ => apply response_read_u; lia
+        end.
+Qed.
+Lemma rcv_zero_KStatic_11 : forall (glit vlit : Z) c cr y s fp tg, ptr_ok (y_data y) ->
+  observe 0 true (run_vsite (mkG c cr (symtab y)) (gen_rawcall_venom KStatic 0 true (SL glit) (SL vlit)) fp tg s)
+  = raw_call_w KStatic 0 true c (y_to y) (0) (bytes_at (s_mem s) (y_data y)) (s_world s).
+Proof.
+  intros glit vlit c cr y s fp tg [Hd1 Hd2].
+  unfold gen_rawcall_venom. rewrite ?eqb00.
+  unfold run_vsite, sym, raw_call_w, kind_op; ev_cbn2; finv y.
+  all: unfold observe; cbn [Z.ltb Z.compare]; f_equal.
+Qed.
+
+Lemma rcv_pos_KStatic_10 : forall M (glit vlit : Z) c cr y s fp tg, 0 < M < WW -> ptr_ok (y_data y) -> ptr_ok (y_out y) ->
+  observe M true (run_vsite (mkG c cr (symtab y)) (gen_rawcall_venom KStatic M true (sym "gas") (SL vlit)) fp tg s)
+  = raw_call_w KStatic M true c (y_to y) (0) (bytes_at (s_mem s) (y_data y)) (s_world s).
+Proof.
+  intros M glit vlit c cr y s fp tg HM [Hd1 Hd2] [Hb1 Hb2].
+  unfold gen_rawcall_venom. destruct (Z.eqb_spec M 0) as [E|_]; [lia|].
+  assert (HM' : (0 <? M) = true) by (apply Z.ltb_lt; lia).
+  unfold run_vsite, cap_tree, sym, raw_call_w, kind_op; ev_cbn2; finv y.
+  all: unfold observe; rewrite ?HM'; f_equal;
+    try match goal with
+        | |- bytes_at _ _ = _ => apply response_read; lia
+        | |- mread _ _ _ = truncate _ _ => apply response_read_u; lia
+        end.
+Qed.
+Lemma rcv_zero_KStatic_10 : forall (glit vlit : Z) c cr y s fp tg, ptr_ok (y_data y) ->
+  observe 0 true (run_vsite (mkG c cr (symtab y)) (gen_rawcall_venom KStatic 0 true (sym "gas") (SL vlit)) fp tg s)
+  = raw_call_w KStatic 0 true c (y_to y) (0) (bytes_at (s_mem s) (y_data y)) (s_world s).
+Proof.
+  intros glit vlit c cr y s fp tg [Hd1 Hd2].
+  unfold gen_rawcall_venom. rewrite ?eqb00.
+  unfold run_vsite, sym, raw_call_w, kind_op; ev_cbn2; finv y.
+  all: unfold observe; cbn [Z.ltb Z.compare]; f_equal.
+Qed.
+
+Lemma rcv_pos_KStatic_01 : forall M (glit vlit : Z) c cr y s fp tg, 0 < M < WW -> ptr_ok (y_data y) -> ptr_ok (y_out y) ->
+  observe M false (run_vsite (mkG c cr (symtab y)) (gen_rawcall_venom KStatic M false (SL glit) (SL vlit)) fp tg s)
+  = raw_call_w KStatic M false c (y_to y) (0) (bytes_at (s_mem s) (y_data y)) (s_world s).
+Proof.
+  intros M glit vlit c cr y s fp tg HM [Hd1 Hd2] [Hb1 Hb2].
+  unfold gen_rawcall_venom. destruct (Z.eqb_spec M 0) as [E|_]; [lia|].
+  assert (HM' : (0 <? M) = true) by (apply Z.ltb_lt; lia).
+  unfold run_vsite, cap_tree, sym, raw_call_w, kind_op; ev_cbn2; finv y.
+  all: unfold observe; rewrite ?HM'; f_equal;
+    try match goal with
+        | |- bytes_at _ _ = _ => apply response_read; lia
+        | |- mread _ _ _ = truncate _ _ => apply response_read_u; lia
+        end.
+Qed.
+Lemma rcv_zero_KStatic_01 : forall (glit vlit : Z) c cr y s fp tg, ptr_ok (y_data y) ->
+  observe 0 false (run_vsite (mkG c cr (symtab y)) (gen_rawcall_venom KStatic 0 false (SL glit) (SL vlit)) fp tg s)
+  = raw_call_w KStatic 0 false c (y_to y) (0) (bytes_at (s_mem s) (y_data y)) (s_world s).
+Proof.
+  intros glit vlit c cr y s fp tg [Hd1 Hd2].
+  unfold gen_rawcall_venom. rewrite ?eqb00.
+  unfold run_vsite, sym, raw_call_w, kind_op; ev_cbn2; finv y.
+  all: unfold observe; cbn [Z.ltb Z.compare]; f_equal.
+Qed.
+
+Lemma rcv_pos_KStatic_00 : forall M (glit vlit : Z) c cr y s fp tg, 0 < M < WW -> ptr_ok (y_data y) -> ptr_ok (y_out y) ->
+  observe M false (run_vsite (mkG c cr (symtab y)) (gen_rawcall_venom KStatic M false (sym "gas") (SL vlit)) fp tg s)
+  = raw_call_w KStatic M false c (y_to y) (0) (bytes_at (s_mem s) (y_data y)) (s_world s).
+Proof.
+  intros M glit vlit c cr y s fp tg HM [Hd1 Hd2] [Hb1 Hb2].
+  unfold gen_rawcall_venom. destruct (Z.eqb_spec M 0) as [E|_]; [lia|].
+  assert (HM' : (0 <? M) = true) by (apply Z.ltb_lt; lia).
+  unfold run_vsite, cap_tree, sym, raw_call_w, kind_op; ev_cbn2; finv y.
+  all: unfold observe; rewrite ?HM'; f_equal;
+    try match goal with
+        | |- bytes_at _ _ = _ => apply response_read; lia
+        | |- mread _ _ _ = truncate _ _ => apply response_read_u; lia
+        end.
+Qed.
+Lemma rcv_zero_KStatic_00 : forall (glit vlit : Z) c cr y s fp tg, ptr_ok (y_data y) ->
+  observe 0 false (run_vsite (mkG c cr (symtab y)) (gen_rawcall_venom KStatic 0 false (sym "gas") (SL vlit)) fp tg s)
+  = raw_call_w KStatic 0 false c (y_to y) (0) (bytes_at (s_mem s) (y_data y)) (s_world s).
+Proof.
+  intros glit vlit c cr y s fp tg [Hd1 Hd2].
+  unfold gen_rawcall_venom. rewrite ?eqb00.
+  unfold run_vsite, sym, raw_call_w, kind_op; ev_cbn2; finv y.
+  all: unfold observe; cbn [Z.ltb Z.compare]; f_equal.
+Qed.
+
+Lemma rcv_pos_KDelegate_11 : forall M (glit vlit : Z) c cr y s fp tg, 0 < M < WW -> ptr_ok (y_data y) -> ptr_ok (y_out y) ->
+  observe M true (run_vsite (mkG c cr (symtab y)) (gen_rawcall_venom KDelegate M true (SL glit) (SL vlit)) fp tg s)
+  = raw_call_w KDelegate M true c (y_to y) (0) (bytes_at (s_mem s) (y_data y)) (s_world s).
+Proof.
+  intros M glit vlit c cr y s fp tg HM [Hd1 Hd2] [Hb1 Hb2].
+  unfold gen_rawcall_venom. destruct (Z.eqb_spec M 0) as [E|_]; [lia|].
+  assert (HM' : (0 <? M) = true) by (apply Z.ltb_lt; lia).
+  unfold run_vsite, cap_tree, sym, raw_call_w, kind_op; ev_cbn2; finv y.
+  all: unfold observe; rewrite ?HM'; f_equal;
+    try match goal with
+        | |- bytes_at _ _ = _ => apply response_read; lia
+        | |- mread _ _ _ = truncate _ _ => apply response_read_u; lia
+        end.
+Qed.
+Lemma rcv_zero_KDelegate_11 : forall (glit vlit : Z) c cr y s fp tg, ptr_ok (y_data y) ->
+  observe 0 true (run_vsite (mkG c cr (symtab y)) (gen_rawcall_venom KDelegate 0 true (SL glit) (SL vlit)) fp tg s)
+  = raw_call_w KDelegate 0 true c (y_to y) (0) (bytes_at (s_mem s) (y_data y)) (s_world s).
+Proof.
+  intros glit vlit c cr y s fp tg [Hd1 Hd2].
+  unfold gen_rawcall_venom. rewrite ?eqb00.
+  unfold run_vsite, sym, raw_call_w, kind_op; ev_cbn2; finv y.
+  all: unfold observe; cbn [Z.ltb Z.compare]; f_equal.
+Qed.
+
+Lemma rcv_pos_KDelegate_10 : forall M (glit vlit : Z) c cr y s fp tg, 0 < M < WW -> ptr_ok (y_data y) -> ptr_ok (y_out y) ->
+  observe M true (run_vsite (mkG c cr (symtab y)) (gen_rawcall_venom KDelegate M true (sym "gas") (SL vlit)) fp tg s)
+  = raw_call_w KDelegate M true c (y_to y) (0) (bytes_at (s_mem s) (y_data y)) (s_world s).
+Proof.
+  intros M glit vlit c cr y s fp tg HM [Hd1 Hd2] [Hb1 Hb2].
+  unfold gen_rawcall_venom. destruct (Z.eqb_spec M 0) as [E|_]; [lia|].
+  assert (HM' : (0 <? M) = true) by (apply Z.ltb_lt; lia).
+  unfold run_vsite, cap_tree, sym, raw_call_w, kind_op; ev_cbn2; finv y.
+  all: unfold observe; rewrite ?HM'; f_equal;
+    try match goal with
+        | |- bytes_at _ _ = _ => apply response_read; lia
+        | |- mread _ _ _ = truncate _ _ => apply response_read_u; lia
+        end.
+Qed.
+Lemma rcv_zero_KDelegate_10 : forall (glit vlit : Z) c cr y s fp tg, ptr_ok (y_data y) ->
+  observe 0 true (run_vsite (mkG c cr (symtab y)) (gen_rawcall_venom KDelegate 0 true (sym "gas") (SL vlit)) fp tg s)
+  = raw_call_w KDelegate 0 true c (y_to y) (0) (bytes_at (s_mem s) (y_data y)) (s_world s).
+Proof.
+  intros glit vlit c cr y s fp tg [Hd1 Hd2].
+  unfold gen_rawcall_venom. rewrite ?eqb00.
+  unfold run_vsite, sym, raw_call_w, kind_op; ev_cbn2; finv y.
+  all: unfold observe; cbn [Z.ltb Z.compare]; f_equal.
+Qed.
+
+Lemma rcv_pos_KDelegate_01 : forall M (glit vlit : Z) c cr y s fp tg, 0 < M < WW -> ptr_ok (y_data y) -> ptr_ok (y_out y) ->
+  observe M false (run_vsite (mkG c cr (symtab y)) (gen_rawcall_venom KDelegate M false (SL glit) (SL vlit)) fp tg s)
+  = raw_call_w KDelegate M false c (y_to y) (0) (bytes_at (s_mem s) (y_data y)) (s_world s).
+Proof.
+  intros M glit vlit c cr y s fp tg HM [Hd1 Hd2] [Hb1 Hb2].
+  unfold gen_rawcall_venom. destruct (Z.eqb_spec M 0) as [E|_]; [lia|].
+  assert (HM' : (0 <? M) = true) by (apply Z.ltb_lt; lia).
+  unfold run_vsite, cap_tree, sym, raw_call_w, kind_op; ev_cbn2; finv y.
+  all: unfold observe; rewrite ?HM'; f_equal;
+    try match goal with
+        | |- bytes_at _ _ = _ => apply response_read; lia
+        | |- mread _ _ _ = truncate _ _ => apply response_read_u; lia
+        end.
+Qed.
+Lemma rcv_zero_KDelegate_01 : forall (glit vlit : Z) c cr y s fp tg, ptr_ok (y_data y) ->
+  observe 0 false (run_vsite (mkG c cr (symtab y)) (gen_rawcall_venom KDelegate 0 false (SL glit) (SL vlit)) fp tg s)
+  = raw_call_w KDelegate 0 false c (y_to y) (0) (bytes_at (s_mem s) (y_data y)) (s_world s).
+Proof.
+  intros glit vlit c cr y s fp tg [Hd1 Hd2].
+  unfold gen_rawcall_venom. rewrite ?eqb00.
+  unfold run_vsite, sym, raw_call_w, kind_op; ev_cbn2; finv y.
+  all: unfold observe; cbn [Z.ltb Z.compare]; f_equal.
+Qed.
+
+Lemma rcv_pos_KDelegate_00 : forall M (glit vlit : Z) c cr y s fp tg, 0 < M < WW -> ptr_ok (y_data y) -> ptr_ok (y_out y) ->
+  observe M false (run_vsite (mkG c cr (symtab y)) (gen_rawcall_venom KDelegate M false (sym "gas") (SL vlit)) fp tg s)
+  = raw_call_w KDelegate M false c (y_to y) (0) (bytes_at (s_mem s) (y_data y)) (s_world s).
+Proof.
+  intros M glit vlit c cr y s fp tg HM [Hd1 Hd2] [Hb1 Hb2].
+  unfold gen_rawcall_venom. destruct (Z.eqb_spec M 0) as [E|_]; [lia|].
+  assert (HM' : (0 <? M) = true) by (apply Z.ltb_lt; lia).
+  unfold run_vsite, cap_tree, sym, raw_call_w, kind_op; ev_cbn2; finv y.
+  all: unfold observe; rewrite ?HM'; f_equal;
+    try match goal with
+        | |- bytes_at _ _ = _ => apply response_read; lia
+        | |- mread _ _ _ = truncate _ _ => apply response_read_u; lia
+        end.
+Qed.
+Lemma rcv_zero_KDelegate_00 : forall (glit vlit : Z) c cr y s fp tg, ptr_ok (y_data y) ->
+  observe 0 false (run_vsite (mkG c cr (symtab y)) (gen_rawcall_venom KDelegate 0 false (sym "gas") (SL vlit)) fp tg s)
+  = raw_call_w KDelegate 0 false c (y_to y) (0) (bytes_at (s_mem s) (y_data y)) (s_world s).
+Proof.
+  intros glit vlit c cr y s fp tg [Hd1 Hd2].
+  unfold gen_rawcall_venom. rewrite ?eqb00.
+  unfold run_vsite, sym, raw_call_w, kind_op; ev_cbn2; finv y.
+  all: unfold observe; cbn [Z.ltb Z.compare]; f_equal.
+Qed.
+
+(* ---------------- create use-sites ---------------- *)
+Ltac fin_tail := rewrite ?eqb10, ?eqb00; ev_cbn2; try site_step; ev_cbn2; rewrite ?lt_self_plus; ev_cbn2; rewrite ?mread_rdcopy; try reflexivity.
+Ltac fin_create :=
+  unfold create_w;
+  match goal with |- context [?cr (c_self ?c) ?v ?ic ?sl] =>
+    let a := fresh "a" in let rd := fresh "rd" in
+    destruct (cr (c_self c) v ic sl) as [a|rd];
+    [ let Hne := fresh "Hne" in destruct (Z.eqb_spec a 0) as [->|Hne]; ev_cbn2;
+      [ fin_tail | let Ea := fresh "Ea" in assert (Ea : (a =? 0) = false) by (apply Z.eqb_neq; exact Hne); rewrite ?Ea; ev_cbn2; try site_step; ev_cbn2; try reflexivity ]
+    | ev_cbn2; fin_tail ]
+  end.
+
+Lemma crl_011 : forall (vlit : Z) c cr y s,
+  observe_create (ev1 (mkG c cr (symtab y)) (gen_create_legacy (None) true (sym "value_sym") (sym "buf_sym") (sym "len_sym")) s)
+  = create_w true cr c (y_value y) (mread (s_mem s) (y_buf y) (y_len y)) (None) (s_world s).
+Proof.
+  intros vlit c cr y s. unfold gen_create_legacy, ev1, sym, propagate, observe_create. ev_cbn2. unfold do_create, exec_create; cbn [g_create g_ctx s_mem]. fin_create.
+Qed.
+
+Lemma crl_010 : forall (vlit : Z) c cr y s,
+  observe_create (ev1 (mkG c cr (symtab y)) (gen_create_legacy (None) true (SL vlit) (sym "buf_sym") (sym "len_sym")) s)
+  = create_w true cr c (vlit) (mread (s_mem s) (y_buf y) (y_len y)) (None) (s_world s).
+Proof.
+  intros vlit c cr y s. unfold gen_create_legacy, ev1, sym, propagate, observe_create. ev_cbn2. unfold do_create, exec_create; cbn [g_create g_ctx s_mem]. fin_create.
+Qed.
+
+Lemma crv_01 : forall (vlit slit : Z) c cr y s fp tg,
+  observe_create (run_vsite (mkG c cr (symtab y)) (gen_create_venom (None) true (SL vlit) (sym "buf_sym") (sym "len_sym")) fp tg s)
+  = create_w true cr c vlit (mread (s_mem s) (y_buf y) (y_len y)) (None) (s_world s).
+Proof.
+  intros vlit slit c cr y s fp tg. unfold gen_create_venom, run_vsite, sym, observe_create. ev_cbn2. unfold do_create, exec_create; cbn [g_create g_ctx s_mem]. fin_create.
+Qed.
+
+Lemma crl_001 : forall (vlit : Z) c cr y s,
+  observe_create (ev1 (mkG c cr (symtab y)) (gen_create_legacy (None) false (sym "value_sym") (sym "buf_sym") (sym "len_sym")) s)
+  = create_w false cr c (y_value y) (mread (s_mem s) (y_buf y) (y_len y)) (None) (s_world s).
+Proof.
+  intros vlit c cr y s. unfold gen_create_legacy, ev1, sym, propagate, observe_create. ev_cbn2. unfold do_create, exec_create; cbn [g_create g_ctx s_mem]. fin_create.
+Qed.
+
+Lemma crl_000 : forall (vlit : Z) c cr y s,
+  observe_create (ev1 (mkG c cr (symtab y)) (gen_create_legacy (None) false (SL vlit) (sym "buf_sym") (sym "len_sym")) s)
+  = create_w false cr c (vlit) (mread (s_mem s) (y_buf y) (y_len y)) (None) (s_world s).
+Proof.
+  intros vlit c cr y s. unfold gen_create_legacy, ev1, sym, propagate, observe_create. ev_cbn2. unfold do_create, exec_create; cbn [g_create g_ctx s_mem]. fin_create.
+Qed.
+
+Lemma crv_00 : forall (vlit slit : Z) c cr y s fp tg,
+  observe_create (run_vsite (mkG c cr (symtab y)) (gen_create_venom (None) false (SL vlit) (sym "buf_sym") (sym "len_sym")) fp tg s)
+  = create_w false cr c vlit (mread (s_mem s) (y_buf y) (y_len y)) (None) (s_world s).
+Proof.
+  intros vlit slit c cr y s fp tg. unfold gen_create_venom, run_vsite, sym, observe_create. ev_cbn2. unfold do_create, exec_create; cbn [g_create g_ctx s_mem]. fin_create.
+Qed.
+
+Lemma crl_111 : forall (vlit : Z) c cr y s,
+  observe_create (ev1 (mkG c cr (symtab y)) (gen_create_legacy (Some (sym "salt_sym")) true (sym "value_sym") (sym "buf_sym") (sym "len_sym")) s)
+  = create_w true cr c (y_value y) (mread (s_mem s) (y_buf y) (y_len y)) (Some (y_salt y)) (s_world s).
+Proof.
+  intros vlit c cr y s. unfold gen_create_legacy, ev1, sym, propagate, observe_create. ev_cbn2. unfold do_create, exec_create; cbn [g_create g_ctx s_mem]. fin_create.
+Qed.
+
+Lemma crl_110 : forall (vlit : Z) c cr y s,
+  observe_create (ev1 (mkG c cr (symtab y)) (gen_create_legacy (Some (sym "salt_sym")) true (SL vlit) (sym "buf_sym") (sym "len_sym")) s)
+  = create_w true cr c (vlit) (mread (s_mem s) (y_buf y) (y_len y)) (Some (y_salt y)) (s_world s).
+Proof.
+  intros vlit c cr y s. unfold gen_create_legacy, ev1, sym, propagate, observe_create. ev_cbn2. unfold do_create, exec_create; cbn [g_create g_ctx s_mem]. fin_create.
+Qed.
+
+Lemma crv_11 : forall (vlit slit : Z) c cr y s fp tg,
+  observe_create (run_vsite (mkG c cr (symtab y)) (gen_create_venom (Some (SL slit)) true (SL vlit) (sym "buf_sym") (sym "len_sym")) fp tg s)
+  = create_w true cr c vlit (mread (s_mem s) (y_buf y) (y_len y)) (Some slit) (s_world s).
+Proof.
+  intros vlit slit c cr y s fp tg. unfold gen_create_venom, run_vsite, sym, observe_create. ev_cbn2. unfold do_create, exec_create; cbn [g_create g_ctx s_mem]. fin_create.
+Qed.
+
+Lemma crl_101 : forall (vlit : Z) c cr y s,
+  observe_create (ev1 (mkG c cr (symtab y)) (gen_create_legacy (Some (sym "salt_sym")) false (sym "value_sym") (sym "buf_sym") (sym "len_sym")) s)
+  = create_w false cr c (y_value y) (mread (s_mem s) (y_buf y) (y_len y)) (Some (y_salt y)) (s_world s).
+Proof.
+  intros vlit c cr y s. unfold gen_create_legacy, ev1, sym, propagate, observe_create. ev_cbn2. unfold do_create, exec_create; cbn [g_create g_ctx s_mem]. fin_create.
+Qed.
+
+Lemma crl_100 : forall (vlit : Z) c cr y s,
+  observe_create (ev1 (mkG c cr (symtab y)) (gen_create_legacy (Some (sym "salt_sym")) false (SL vlit) (sym "buf_sym") (sym "len_sym")) s)
+  = create_w false cr c (vlit) (mread (s_mem s) (y_buf y) (y_len y)) (Some (y_salt y)) (s_world s).
+Proof.
+  intros vlit c cr y s. unfold gen_create_legacy, ev1, sym, propagate, observe_create. ev_cbn2. unfold do_create, exec_create; cbn [g_create g_ctx s_mem]. fin_create.
+Qed.
+
+Lemma crv_10 : forall (vlit slit : Z) c cr y s fp tg,
+  observe_create (run_vsite (mkG c cr (symtab y)) (gen_create_venom (Some (SL slit)) false (SL vlit) (sym "buf_sym") (sym "len_sym")) fp tg s)
+  = create_w false cr c vlit (mread (s_mem s) (y_buf y) (y_len y)) (Some slit) (s_world s).
+Proof.
+  intros vlit slit c cr y s fp tg. unfold gen_create_venom, run_vsite, sym, observe_create. ev_cbn2. unfold do_create, exec_create; cbn [g_create g_ctx s_mem]. fin_create.
+Qed.
+
+(* ---------------- storage contexts ---------------- *)
+Definition delegate_frame (c : cctx) (data : list Z) : frame :=
+  mkFrame (c_self c) (c_sender c) (c_callvalue c) data (c_static c).
+
+Lemma delegate_context_thm : forall w c to v data beh M R,
+  w_beh w to = Some beh -> c_static c = false ->
+  let e := beh (delegate_frame c data) (w_store w (c_self c)) in
+  (ef_ok e = true ->
+     raw_call_w KDelegate M R c to v data w
+     = OOk 1 (truncate M (ef_out e)) (set_store w (c_self c) (apply_writes (ef_writes e) (w_store w (c_self c))))) /\
+  (ef_ok e = false -> raw_call_w KDelegate M R c to v data w = if R then ORev (ef_out e) else OOk 0 (truncate M (ef_out e)) w).
+Proof.
+  intros w c to v data beh M R Hb Hs e.
+  assert (Hf : frame_of c KDelegate to v data = delegate_frame c data).
+  { unfold frame_of, delegate_frame. rewrite Hs. reflexivity. }
+  unfold raw_call_w, exec_call. rewrite Hb, Hf. fold e.
+  unfold delegate_frame at 1. cbn [f_static f_owner delegate_frame]. rewrite Hs. cbn [andb].
+  fold e. split; intro H; rewrite H; cbn [o_ok o_rd o_world]; reflexivity.
+Qed.
+
+Lemma delegate_other_untouched_thm : forall w c to v data a,
+  a <> c_self c -> w_store (o_world (exec_call w c KDelegate to v data)) a = w_store w a.
+Proof.
+  intros w c to v data a Ha. unfold exec_call. destruct (w_beh w to) as [beh|]; [|reflexivity].
+  cbn [frame_of f_owner f_static].
+  match goal with |- context [if ?b then _ else _] => destruct b end; [reflexivity|].
+  match goal with |- context [if ?b then _ else _] => destruct b end; [|reflexivity].
+  cbn [o_world set_store w_store]. destruct (Z.eqb_spec a (c_self c)); [contradiction|reflexivity].
+Qed.
+
+Lemma call_other_untouched_thm : forall w c to v data a,
+  a <> to -> w_store (o_world (exec_call w c KCall to v data)) a = w_store w a.
+Proof.
+  intros w c to v data a Ha. unfold exec_call. destruct (w_beh w to) as [beh|]; [|reflexivity].
+  cbn [frame_of f_owner f_static].
+  match goal with |- context [if ?b then _ else _] => destruct b end; [reflexivity|].
+  match goal with |- context [if ?b then _ else _] => destruct b end; [|reflexivity].
+  cbn [o_world set_store w_store]. destruct (Z.eqb_spec a to); [contradiction|reflexivity].
+Qed.
+
+Lemma static_no_state_change_thm : forall w c to v data,
+  (forall a, w_store (o_world (exec_call w c KStatic to v data)) a = w_store w a) /\
+  (forall beh, w_beh w to = Some beh ->
+     no_writes (beh (frame_of c KStatic to v data) (w_store w to)) = false ->
+     exec_call w c KStatic to v data = mkOut false [] w).
+Proof.
+  intros w c to v data. split.
+  - intro a. unfold exec_call. destruct (w_beh w to) as [beh|]; [|reflexivity].
+    cbn [frame_of f_owner f_static]. rewrite orb_true_r. cbn [andb].
+    set (e := beh _ _). unfold no_writes. destruct (ef_writes e) as [|x l] eqn:Ew; cbn [negb]; [|reflexivity].
+    destruct (ef_ok e); [|reflexivity]. cbn [o_world set_store w_store apply_writes].
+    destruct (Z.eqb_spec a to); [subst; reflexivity|reflexivity].
+  - intros beh Hb Hw. unfold exec_call. rewrite Hb. cbn [f_static f_owner frame_of] in *. rewrite orb_true_r in *.
+    cbn [andb]. rewrite Hw. reflexivity.
+Qed.
+
+Lemma failure_rolls_back_thm : forall w c k to v data, o_ok (exec_call w c k to v data) = false -> o_world (exec_call w c k to v data) = w.
+Proof.
+  intros w c k to v data. unfold exec_call. destruct (w_beh w to) as [beh|]; [|discriminate].
+  match goal with |- context [if ?b then _ else _] => destruct b end; [reflexivity|].
+  match goal with |- context [if ?b then _ else _] => destruct b end; [discriminate|reflexivity].
+Qed.
+
+(* the world-level behaviour refines the decision table of Builtins.v (tied by the existing correspondence) *)
+Definition answer_of (w : world) (c : cctx) (to : Z) (data : list Z) (k : ckind) (v : Z) : outcome :=
+  let o := exec_call w c k to v data in if o_ok o then Success (o_rd o) else Failure (o_rd o).
+Lemma rawcall_w_table_thm : forall k M R c to v data w,
+  raw_call_k k M R v (answer_of w c to data)
+  = match raw_call_w k M R c to (match k with KCall => v | _ => 0 end) data w with
+    | OOk f out _ => Ok (f :: len out :: out)
+    | ORev rd => Revert rd
+    | OStuck => Revert []
+    end.
+Proof.
+  intros k M R c to v data w. unfold raw_call_k, raw_call_w, answer_of.
+  destruct (o_ok (exec_call w c k to (match k with KCall => v | _ => 0 end) data)); [reflexivity|].
+  destruct R; reflexivity.
+Qed.
+
+Lemma create_w_table_thm : forall R cr c v ic salt w,
+  match cr (c_self c) v ic salt with
+  | CreateOk a => a <> 0 -> create_w R cr c v ic salt w = OOk a [] w
+  | CreateFail rd => create_w R cr c v ic salt w = if R then ORev rd else OOk 0 [] w
+  end.
+Proof.
+  intros. unfold create_w. destruct (cr (c_self c) v ic salt) as [a|rd]; [|reflexivity].
+  intro Ha. destruct (Z.eqb_spec a 0); [contradiction|reflexivity].
+Qed.
+
+(* ---------------- the generators, for the whole keyword family ---------------- *)
+Definition legacy_rawcall_ok (e : sx) (k : ckind) (M : Z) (R hv : bool) : Prop :=
+  forall c cr y s, ptr_ok (y_data y) ->
+    observe M R (ev_top (mkG c cr (symtab y)) e s)
+    = raw_call_w k M R c (y_to y) (match k with KCall => if hv then y_value y else 0 | _ => 0 end)
+                 (bytes_at (s_mem s) (y_data y)) (s_world s).
+Definition venom_rawcall_ok (v : vsite) (k : ckind) (M : Z) (R : bool) (vlit : Z) : Prop :=
+  forall c cr y s fp tg, ptr_ok (y_data y) -> ptr_ok (y_out y) ->
+    observe M R (run_vsite (mkG c cr (symtab y)) v fp tg s)
+    = raw_call_w k M R c (y_to y) (match k with KCall => vlit | _ => 0 end) (bytes_at (s_mem s) (y_data y)) (s_world s).
+Definition legacy_create_ok (e : sx) (salt R hv : bool) : Prop :=
+  forall c cr y s,
+    observe_create (ev1 (mkG c cr (symtab y)) e s)
+    = create_w R cr c (if hv then y_value y else 0) (mread (s_mem s) (y_buf y) (y_len y))
+               (if salt then Some (y_salt y) else None) (s_world s).
+Definition venom_create_ok (v : vsite) (salt R : bool) (vlit slit : Z) : Prop :=
+  forall c cr y s fp tg,
+    observe_create (run_vsite (mkG c cr (symtab y)) v fp tg s)
+    = create_w R cr c vlit (mread (s_mem s) (y_buf y) (y_len y)) (if salt then Some slit else None) (s_world s).
+
+Lemma ptr_ok_64 : ptr_ok 64.
+Proof. split; [lia|reflexivity]. Qed.
+
+Lemma gen_rawcall_legacy_ok : forall k M R hg (hv : bool), 0 <= M < WW ->
+  legacy_rawcall_ok (gen_rawcall_legacy k M R hg (if hv then sym "value_sym" else SL 0) 64) k M R hv.
+Proof.
+  intros k M R hg hv HM c cr y s Hd. pose proof ptr_ok_64 as H64.
+  destruct (Z.eq_dec M 0) as [->|Hn].
+  - destruct k, R, hg, hv;
+    [> apply rcl_zero_KCall_111; exact Hd
+       | apply rcl_zero_KCall_110; exact Hd
+       | apply rcl_zero_KCall_101; exact Hd
+       | apply rcl_zero_KCall_100; exact Hd
+       | apply rcl_zero_KCall_011; exact Hd
+       | apply rcl_zero_KCall_010; exact Hd
+       | apply rcl_zero_KCall_001; exact Hd
+       | apply rcl_zero_KCall_000; exact Hd
+       | apply rcl_zero_KStatic_111; exact Hd
+       | apply rcl_zero_KStatic_110; exact Hd
+       | apply rcl_zero_KStatic_101; exact Hd
+       | apply rcl_zero_KStatic_100; exact Hd
+       | apply rcl_zero_KStatic_011; exact Hd
+       | apply rcl_zero_KStatic_010; exact Hd
+       | apply rcl_zero_KStatic_001; exact Hd
+       | apply rcl_zero_KStatic_000; exact Hd
+       | apply rcl_zero_KDelegate_111; exact Hd
+       | apply rcl_zero_KDelegate_110; exact Hd
+       | apply rcl_zero_KDelegate_101; exact Hd
+       | apply rcl_zero_KDelegate_100; exact Hd
+       | apply rcl_zero_KDelegate_011; exact Hd
+       | apply rcl_zero_KDelegate_010; exact Hd
+       | apply rcl_zero_KDelegate_001; exact Hd
+       | apply rcl_zero_KDelegate_000; exact Hd ].
+  - assert (HM' : 0 < M < WW) by lia.
+    destruct k, R, hg, hv;
+    [> apply rcl_pos_KCall_111; assumption
+       | apply rcl_pos_KCall_110; assumption
+       | apply rcl_pos_KCall_101; assumption
+       | apply rcl_pos_KCall_100; assumption
+       | apply rcl_pos_KCall_011; assumption
+       | apply rcl_pos_KCall_010; assumption
+       | apply rcl_pos_KCall_001; assumption
+       | apply rcl_pos_KCall_000; assumption
+       | apply rcl_pos_KStatic_111; assumption
+       | apply rcl_pos_KStatic_110; assumption
+       | apply rcl_pos_KStatic_101; assumption
+       | apply rcl_pos_KStatic_100; assumption
+       | apply rcl_pos_KStatic_011; assumption
+       | apply rcl_pos_KStatic_010; assumption
+       | apply rcl_pos_KStatic_001; assumption
+       | apply rcl_pos_KStatic_000; assumption
+       | apply rcl_pos_KDelegate_111; assumption
+       | apply rcl_pos_KDelegate_110; assumption
+       | apply rcl_pos_KDelegate_101; assumption
+       | apply rcl_pos_KDelegate_100; assumption
+       | apply rcl_pos_KDelegate_011; assumption
+       | apply rcl_pos_KDelegate_010; assumption
+       | apply rcl_pos_KDelegate_001; assumption
+       | apply rcl_pos_KDelegate_000; assumption ].
+Qed.
+
+Lemma gen_rawcall_venom_ok : forall k M R (hg : bool) glit vlit, 0 <= M < WW ->
+  venom_rawcall_ok (gen_rawcall_venom k M R (if hg then SL glit else sym "gas") (SL vlit)) k M R vlit.
+Proof.
+  intros k M R hg glit vlit HM c cr y s fp tg Hd Ho.
+  destruct (Z.eq_dec M 0) as [->|Hn].
+  - destruct k, R, hg;
+    [> apply (rcv_zero_KCall_11 glit vlit); exact Hd
+       | apply (rcv_zero_KCall_10 glit vlit); exact Hd
+       | apply (rcv_zero_KCall_01 glit vlit); exact Hd
+       | apply (rcv_zero_KCall_00 glit vlit); exact Hd
+       | apply (rcv_zero_KStatic_11 glit vlit); exact Hd
+       | apply (rcv_zero_KStatic_10 glit vlit); exact Hd
+       | apply (rcv_zero_KStatic_01 glit vlit); exact Hd
+       | apply (rcv_zero_KStatic_00 glit vlit); exact Hd
+       | apply (rcv_zero_KDelegate_11 glit vlit); exact Hd
+       | apply (rcv_zero_KDelegate_10 glit vlit); exact Hd
+       | apply (rcv_zero_KDelegate_01 glit vlit); exact Hd
+       | apply (rcv_zero_KDelegate_00 glit vlit); exact Hd ].
+  - assert (HM' : 0 < M < WW) by lia.
+    destruct k, R, hg;
+    [> apply (rcv_pos_KCall_11 M glit vlit); assumption
+       | apply (rcv_pos_KCall_10 M glit vlit); assumption
+       | apply (rcv_pos_KCall_01 M glit vlit); assumption
+       | apply (rcv_pos_KCall_00 M glit vlit); assumption
+       | apply (rcv_pos_KStatic_11 M glit vlit); assumption
+       | apply (rcv_pos_KStatic_10 M glit vlit); assumption
+       | apply (rcv_pos_KStatic_01 M glit vlit); assumption
+       | apply (rcv_pos_KStatic_00 M glit vlit); assumption
+       | apply (rcv_pos_KDelegate_11 M glit vlit); assumption
+       | apply (rcv_pos_KDelegate_10 M glit vlit); assumption
+       | apply (rcv_pos_KDelegate_01 M glit vlit); assumption
+       | apply (rcv_pos_KDelegate_00 M glit vlit); assumption ].
+Qed.
+
+Lemma gen_create_legacy_ok : forall (salt R hv : bool),
+  legacy_create_ok (gen_create_legacy (if salt then Some (sym "salt_sym") else None) R
+                                      (if hv then sym "value_sym" else SL 0) (sym "buf_sym") (sym "len_sym")) salt R hv.
+Proof.
+  intros salt R hv c cr y s.
+  destruct salt, R, hv;
+    [> apply (crl_111 0) | apply (crl_110 0) | apply (crl_101 0) | apply (crl_100 0)
+     | apply (crl_011 0) | apply (crl_010 0) | apply (crl_001 0) | apply (crl_000 0) ].
+Qed.
+
+Lemma gen_create_venom_ok : forall (salt R : bool) vlit slit,
+  venom_create_ok (gen_create_venom (if salt then Some (SL slit) else None) R (SL vlit) (sym "buf_sym") (sym "len_sym")) salt R vlit slit.
+Proof.
+  intros salt R vlit slit c cr y s fp tg.
+  destruct salt, R; [> apply (crv_11 vlit slit) | apply (crv_10 vlit slit) | apply (crv_01 vlit slit) | apply (crv_00 vlit slit) ].
 Qed.
